@@ -131,7 +131,7 @@ def generate(T, tier):
                 continue
             cnt_checks = ["assert!(get_bits(&buf, %d, %d) == %d);" % (off, w, min(n, c)) for off, w, _, c in lay.counts]
             name = "%s_n%d" % (mod, n)
-            unw = max(12, G.max_cap(mod) + 2, nbytes + 2)
+            unw = max(12, min(G.max_cap(mod), 64) + 2, nbytes + 2)
             code.append("""#[kani::proof]
 #[kani::unwind(%(unw)d)]
 pub fn %(name)s() {
@@ -182,7 +182,7 @@ pub fn %(name)s() {
     let mut par = Parser::new(&payload, 12);
     assert!(c::decode(&mut par).is_err());
 }
-""" % {"unw": max(12, G.max_cap(mod) + 2), "name": name, "mod": mod, "nb": nb, "off": off, "w": w, "cap": c,
+""" % {"unw": max(12, min(G.max_cap(mod), 64) + 2), "name": name, "mod": mod, "nb": nb, "off": off, "w": w, "cap": c,
        "zero": "\n    ".join("kani::assume(get_bits(&payload, %d, %d) == 0);" % (o2, w2) for (o2, w2, _, _) in lay0.counts[:ci])})
                 hs.append({"name": "c15gen::%s" % name, "group": "main", "tier": "quick" if q else "thorough",
                            "bounds": "%s: count field %s (%d bits) holding any value above the capacity %d, arbitrary remaining bytes => Err (Corrupt)" % (mod, path, w, c)})
@@ -200,18 +200,22 @@ pub fn %(name)s() {
         assert!(c::encode(&mut asm, &m).is_ok());
     }
     // body shorter than its counts imply: every cut that removes at least one needed bit
-    let t: usize = kani::any();
-    kani::assume(t >= 2 && t < %(needed)d);
-    let mut par = Parser::new(&buf[..t], 12);
-    assert!(c::decode(&mut par).is_err());
+    // (a concrete loop over the cut position: a symbolic slice length makes every parse loop
+    // unwind to the global bound)
+    let mut t = 2usize;
+    while t < %(needed)d {
+        let mut par = Parser::new(&buf[..t], 12);
+        assert!(c::decode(&mut par).is_err());
+        t += 1;
+    }
 }
-""" % {"unw": max(12, G.max_cap(mod) + 2, nb2 + 2), "name": name, "mod": mod, "build": "\n    ".join(build2), "nbytes": nb2, "number": m["number"], "needed": nb2})
+""" % {"unw": max(12, min(G.max_cap(mod), 64) + 2, nb2 + 2), "name": name, "mod": mod, "build": "\n    ".join(build2), "nbytes": nb2, "number": m["number"], "needed": nb2})
         hs.append({"name": "c15gen::%s" % name, "group": "trunc", "tier": "quick" if mod in ("msg1004", "msg1057") else "thorough",
                    "bounds": "%s with 2 elements per list, payload cut at every byte length 2..%d => Err" % (mod, nb2 - 1)})
     gen.write_gen("c15_list.rs", "\n".join(code))
     return {
         "harnesses": hs,
-        "groups": {"main": {"features": ["c15"], "timeout_s": 3000}, "trunc": {"features": ["c15"], "timeout_s": 3000}},
+        "groups": {"main": {"features": ["c15"], "timeout_s": 3000, "unwindset": [["try_from_fn_erased", 392]]}, "trunc": {"features": ["c15"], "timeout_s": 3000, "unwindset": [["try_from_fn_erased", 392]]}},
         "level": "model_checking",
         "functions": ["msg::{frag_vec, frag_vec_with_len, msg_len_middle} generated encode/decode for %d list-bearing message types" % len(types), "df_88591_string_with_len encode/decode", "DataVec::{push,len}"],
         "bounds": {"counts": "every n in 0..=capacity (thorough; quick n in {0,1,cap} for %d types), one harness per (type, n) with the real element codec" % len(QUICK),
